@@ -146,6 +146,8 @@ def check(chk):
     chk.judge(okadv, 'C26.advance', adv[0], 'while index < len(token_offsets) and token_offsets[index] < i: index += 1',
               'the cursor advance is `%s`: for ring positions after a datacenter\'s last token the cursor must reach len(token_offsets) so that the walk wraps to the DC\'s first token; '
               'stopping one short (or comparing with <=) starts the walk at the wrong token and picks the wrong replicas in that DC' % src(t_))
+    chk.rule('C26.refresh', 'the per-keyspace replica map is rebuilt when the keyspace changes, also when the cached map is empty')
+    chk.borrow('C22', {'C22.cache': 'C26.refresh'}, 'get_replicas keeps answering [] for a keyspace that was altered from a strategy without replicas to SimpleStrategy / NetworkTopologyStrategy')
     gr = meta.func('TokenMap.get_replicas')
     s = src(gr)
     # decided on the paths: the index is bisect_left(ring, token); at the end of the ring (index == len(ring)) entry 0 is used, otherwise the entry at the index
